@@ -35,6 +35,17 @@ impl From<ResourceId> for Token {
     }
 }
 
+/// Verification hook: the two token conversions as plain functions.
+#[cfg(message_io_verif)]
+pub fn verif_token_of_id(id: ResourceId) -> usize {
+    Token::from(id).0
+}
+
+#[cfg(message_io_verif)]
+pub fn verif_id_of_token(token: usize) -> ResourceId {
+    ResourceId::from(Token(token))
+}
+
 pub struct Poll {
     mio_poll: MioPoll,
     events: Events,
